@@ -1289,28 +1289,6 @@ impl StoreWorkload {
             }
             return StoreCase { fastq: BTreeMap::new(), focus: focus.to_string(), samples, extra: BTreeMap::new(), ops, sim_seed: rng.next_u64() >> 1 };
         }
-        if matches!(focus, "C14" | "C06") && rng.chance(if tier == Tier::Quick { 1 } else { 3 }) {
-            // very many samples (past 64, 128 and 256): anything that keeps a sample set in one
-            // machine word, or a sample index in a byte, breaks here
-            let n = *rng.pick(&[65usize, 66, 70, 129, 130, 256, 257, 260]);
-            let mut o = GenomeOpts::swarm(&mut rng, k);
-            o.len = o.len.min(3 * k + 60);
-            if focus == "C14" {
-                o.repeats = false;
-                o.palindromes = false;
-            }
-            let samples = gen_samples(&mut rng, n, k, &o, "s");
-            let mut ops = vec![Op::Build { out: "b1".into(), samples: (0..n).collect(), k, single_strand: ss, list: true, threads: rng.range(1, 4) }];
-            if focus == "C14" {
-                ops.push(Op::Distance { file: "b1".into(), min_count: 0, pct: None, allow_ambig: rng.chance(50), threads: *rng.pick(&[1usize, 3, 8]) });
-                ops.push(Op::Distance { file: "b1".into(), min_count: rng.range(1, n), pct: None, allow_ambig: false, threads: 2 });
-            } else {
-                ops.push(Op::Align { file: "b1".into(), a: gen_alignj(&mut rng, n) });
-                ops.push(Op::Align { file: "b1".into(), a: gen_alignj(&mut rng, n) });
-            }
-            crate::procsim::probe("more_than_64_samples");
-            return StoreCase { fastq: BTreeMap::new(), focus: focus.to_string(), samples, extra: BTreeMap::new(), ops, sim_seed: rng.next_u64() >> 1 };
-        }
         let fits64 = k >= 35 && matches!(focus, "C07" | "C10") && rng.chance(25);
         let mut samples = if fits64 { gen_fits64_samples(&mut rng, n, k, "s") } else { gen_samples(&mut rng, n, k, &o, "s") };
         if !fits64 && rng.chance(30) {
